@@ -17,7 +17,7 @@ import os
 import re
 from html.parser import HTMLParser
 
-from ..common import Ctx, S, unS, differential, run_model, known_matcher, canon, VERIF
+from ..common import Ctx, S, unS, run_model, known_matcher, canon, VERIF
 from .. import trees
 from ..trees import safe_call
 
@@ -270,8 +270,13 @@ class Collector(HTMLParser):
         self.events.append(("unknown", data))
 
 
+_COLLECTOR = Collector()
+
+
 def tokenize(s: str) -> list:
-    p = Collector()
+    p = _COLLECTOR
+    p.reset()
+    p.events = []
     p.feed(s)
     p.close()
     return p.events
@@ -376,15 +381,113 @@ class JsonMode:
 
 
 # ------------------------------------------------------------------------------------------
+class Batch:
+    """all model inputs of a run, evaluated by ONE run_model invocation (each invocation takes
+    the build lock, runs make and spawns the driver processes)"""
+
+    def __init__(self):
+        self.sx: list = []
+        self.groups: dict[str, tuple[int, int]] = {}
+        self.out: list = []
+
+    def add(self, name: str, sxs: list) -> None:
+        self.groups[name] = (len(self.sx), len(sxs))
+        self.sx += sxs
+
+    def run(self) -> None:
+        # one invocation in the quick tier; the thorough tier is cut into a few slices to bound the
+        # size of the text handed to the driver processes
+        self.out = []
+        step = 80000
+        for a in range(0, len(self.sx), step):
+            self.out += run_model(self.sx[a:a + step], nproc=8, driver="c13")
+
+    def get(self, name: str) -> list:
+        a, n = self.groups[name]
+        return self.out[a:a + n]
+
+
+def diff(ctx: Ctx, name, cases, model_out, impl, decode, oracle=None,
+         nontrivial=lambda c: True, kind=lambda c: None) -> None:
+    """common.differential without its own run_model call"""
+    dis = []
+    for c, m in zip(cases, model_out):
+        ctx.count(c, nontrivial(c), kind(c))
+        iv = impl(c)
+        if oracle is not None:
+            oracle(c, iv)
+        mv = ("!", m[1]) if isinstance(m, tuple) else decode(m)
+        if mv != iv:
+            dis.append({"case": c, "impl_output": iv, "model_output": mv})
+    ctx.corr_cases += len(cases)
+    ctx.obligation(f"correspondence {name} ({len(cases)} cases)", not dis)
+    if dis:
+        dis.sort(key=lambda d: len(canon(d["case"])))
+        ctx.extra.setdefault("disagreements", []).extend(dis[:3])
+        ctx.extra[f"disagree_{name}"] = dis[:3]
+
+
+def nontriv_s(s: str) -> bool:
+    return any(c in '"\\<' or ord(c) < 32 or ord(c) > 126 for c in s)
+
+
+def py_loads(l):
+    try:
+        v = json.loads(l)
+    except (json.JSONDecodeError, RecursionError):
+        return None
+    return v if isinstance(v, str) else ["not a str"]
+
+
+def decode_extract(m):
+    return safe_call(lambda: (unS(m[0]), [dep_canon(dep_from_payload(unS(p))) for p in m[1]]))
+
+
+def render_run(case):
+    doc, sers = make_doc(case)
+    extra = [build_dep(d) for d in case["extra"]]
+
+    def f():
+        r = HTMLTextDocument(doc, deps=list(extra) if extra else None, deps_replace_pattern=case["ph"]) \
+            .render(lib_prefix=case["lib_prefix"], include_version=case["include_version"])
+        return (r["html"], [dep_canon(d) for d in r["dependencies"]])
+    return safe_call(f), sers
+
+
+def render_expect(case, sers):
+    """(remaining text, dependency list, markup or None)"""
+    origin = {}
+    for (i, _ind), s in zip(case["items"], sers):
+        origin.setdefault(s, i)
+    deps = [build_dep(d) for d in case["extra"]] + \
+           [build_dep(case["pool"][origin[s]]) for s in spec_first_occurrences(sers)]
+    names = [d.name for d in deps]
+    markup = None
+    if len(set(names)) == len(names):
+        markup = listing_and_tags_markup(deps, case["lib_prefix"], case["include_version"])
+    return "".join(case["texts"]), deps, markup
+
+
+def code_markup(deps, case):
+    tl = TagList()
+    if deps:
+        tl.append(Tag("script", ";".join(d.name + "[" + str(d.version) + "]" for d in deps),
+                      type="application/html-dependencies"))
+    tl.extend([d.as_html_tags(lib_prefix=case["lib_prefix"], include_version=case["include_version"]) for d in deps])
+    return tl.render()["html"]
+
+
 def run(ctx: Ctx) -> None:
     rng = ctx.rng
     ctx.rule = (
-        "strings: every code point one at a time (quick: below 0x3000 plus samples; thorough: all 1 112 064 "
-        "scalar values) and hostile strings drawn from fragments (quotes, backslashes, newlines, controls, "
+        "strings: code points one at a time (quick: all below 0x500, the blocks around U+2028, the surrogate "
+        "borders and U+FFxx, plus random scalar values; thorough: all 1 112 064 scalar values) and hostile strings "
+        "drawn from fragments (quotes, backslashes, newlines, controls, "
         "non-ASCII, astral, '</script' in all 64 letter cases with 9 tails, '<!--', '<script>', the opening "
         "tag literal, placeholders); dependencies: random records with such strings in name, source, script / "
         "stylesheet / meta entries and head (raw markup, Tag trees, script tags), serialised with indent in "
-        "{None,0,2,4}; documents: 0-6 serialised copies of 1-3 dependencies (duplicates, different indents) "
+        "{None,0,2,4}, after the corpus (the '</SCRIPT>' family of fixed finding F3); documents: 0-6 serialised "
+        "copies of 1-3 dependencies (duplicates, different indents) "
         "interleaved with hostile text free of the opening tag; placeholders occurring 0-3 times, also "
         "overlapping and empty; pipelines: random tag trees holding dependencies rendered in json mode and "
         "directly. Non-trivial = contains at least one of quote, backslash, '<', control or non-ASCII character "
@@ -398,7 +501,8 @@ def run(ctx: Ctx) -> None:
     ]
     pr = ctx.proof()
 
-    # which form of T1 does Properties/C13.v claim for this tree?
+    # T1 at full strength is the theorem C13_no_close_tag_status : C13_T1_holds (the file can only say
+    # C13_T1_refuted, and compile, if the replace literals regress to a form that lets a close tag through)
     with open(os.path.join(VERIF, "coq", "Properties", "C13.v"), encoding="utf-8") as f:
         m = re.search(r"^Theorem C13_no_close_tag_status : (\w+)\.", f.read(), re.M)
     status = m.group(1) if m else "?"
@@ -407,91 +511,61 @@ def run(ctx: Ctx) -> None:
                    "'</script' in any letter case) -- Properties/C13.v claims " + status,
                    bool(pr["ok"]) and status == "C13_T1_holds")
 
-    # ---- B0: regenerated literals vs the live implementation ------------------------------
-    tab = run_model([[7]], driver="c13")[0]
-    m_from, m_to, m_open, m_close = (unS(tab[i]) for i in range(4))
-    m_keys = [unS(k) for k in tab[4]]
-    ctx.extra["literals"] = {"neutralise_from": m_from, "neutralise_to": m_to, "neutralise_ok": bool(tab[5]),
-                             "neutralise_shape": bool(tab[6])}
+    # =========================================================================================
+    # generate every input; the model is run once on all of them
+    # =========================================================================================
+    batch = Batch()
+    batch.add("tables", [[7]])
     probe = HTMLDependency("p", "1").serialize_to_script_json().get_html_string()
-    live_keys = list(json.loads(probe[len(OPEN_TAG):-len(CLOSE_TAG)]).keys()) if probe.startswith(OPEN_TAG) else None
-    ctx.obligation("regenerated opener/closer are the opening/closing tag the serialiser really emits, and the "
-                   "regenerated key list is the live key order",
-                   m_open == OPEN_TAG and m_close == CLOSE_TAG and probe.startswith(m_open)
-                   and probe.endswith(m_close) and live_keys == m_keys)
-    ctx.obligation("html_dependency_render_mode defaults to 'invisible'",
-                   htmltools.html_dependency_render_mode == "invisible")
-    if set(m_keys) != set(FIELDS):
-        # the statement lists the fields that must come back; a serialiser that drops one is
-        # caught by the element oracle below, nothing to do here
-        ctx.extra["serialised_keys_differ_from_statement"] = m_keys
+    live_keys = list(json.loads(probe[len(OPEN_TAG):-len(CLOSE_TAG)]).keys()) if probe.startswith(OPEN_TAG) else []
 
-    # ---- B1: json.dumps(str) -----------------------------------------------------------------
-    strs: list[str] = [chr(c) for c in range(0, 0x3000) if not 0xD800 <= c <= 0xDFFF]
+    # ---- B1: json.dumps(str) ------------------------------------------------------------------
     if ctx.quick:
-        strs += [trees.rand_char(rng) for _ in range(3000)]
+        cps = list(range(0, 0x500)) + list(range(0x2000, 0x2070)) + list(range(0xD7C0, 0xD800)) + \
+              list(range(0xE000, 0xE020)) + list(range(0xFF00, 0x10000)) + list(range(0x10000, 0x10020)) + \
+              list(range(0x10FFE0, 0x110000))
+        strs = [chr(c) for c in cps] + [trees.rand_char(rng) for _ in range(1200)]
     else:
+        strs = [chr(c) for c in range(0, 0x3000) if not 0xD800 <= c <= 0xDFFF]
         cps = [c for c in range(0x3000, 0x110000) if not 0xD800 <= c <= 0xDFFF]
         for i in range(0, len(cps), 64):
             strs.append("".join(chr(c) for c in cps[i:i + 64]))
-    strs += [hostile(rng, 5) for _ in range(ctx.budget(3000, 40000))]
+    strs += [hostile(rng, 5) for _ in range(ctx.budget(1500, 40000))]
     alpha = '</\\"sS>'
     for n in range(0, ctx.budget(3, 5) + 1):
         strs += ["".join(t) for t in itertools.product(alpha, repeat=n)]
     strs += ["퟿", "\U00010000\U0010ffff", "\x7f\x80\xa0"]
+    batch.add("enc", [[2, S(s)] for s in strs])
 
-    def nontriv_s(s):
-        return any(c in '"\\<' or ord(c) < 32 or ord(c) > 126 for c in s)
-
-    differential(ctx, "json.dumps(str) vs json_str_enc", strs,
-                 to_sx=lambda s: [2, S(s)], impl=lambda s: json.dumps(s), decode=unS,
-                 nontrivial=nontriv_s, kind=lambda s: "string for json.dumps", driver="c13")
-
-    # ---- B2: json.loads(literal), incl. neutralised literals and malformed ones ---------------
-    def py_neutralise(s):
-        return s.replace(m_from, m_to) if m_from else s
-
+    # ---- B2: json.loads(literal), incl. neutralised literals and malformed ones -------------------
     lits = []
-    for s in strs[-ctx.budget(4000, 30000):]:
-        lits.append(py_neutralise(json.dumps(s)))
-    lits += [json.dumps(s, ensure_ascii=False) for s in strs[-1500:]]
+    for k, s in enumerate(strs[-ctx.budget(1500, 30000):]):
+        d = json.dumps(s)
+        lits.append(d.replace("</", "<\\/") if k % 3 else d.replace("</script>", "<\\/script>"))
+    lits += [json.dumps(s, ensure_ascii=False) for s in strs[-ctx.budget(500, 1500):]]
     lfr = ['\\u', 'd83d', '\\ude00', 'D800', 'dc00', '\\', '"', '/', 'x', '\\ud83d\\ude00', '\\ud800',
            '\\udc00', '\\u00e9', '\\n', '\\/', '<\\/', '\\u12', 'G', '\x01', 'é', '\\b', '\\f', '\\r', '\\t',
            '\\x', '\\U0001', ' ', '\n', '\\u00E9', '\\uD83D\\uDE00', '\\ud83d\\u0041', '\\ud83d\\ud83d\\ude00']
-    for _ in range(ctx.budget(6000, 60000)):
+    for _ in range(ctx.budget(2500, 60000)):
         lits.append('"' + "".join(rng.choice(lfr) for _ in range(rng.randrange(0, 6))) + '"')
     lits += ['"', '""', '"\\', '"\\u', '"\\u00', '"\\ud83d\\ude0', '"\\ud83d\\ude00', 'x', '', '"a"b"']
+    batch.add("dec", [[3, S(s)] for s in lits])
 
-    def py_loads(l):
-        try:
-            v = json.loads(l)
-        except (json.JSONDecodeError, RecursionError):
-            return None
-        return v if isinstance(v, str) else ["not a str"]
-
-    differential(ctx, "json.loads(string literal) vs json_str_dec", lits,
-                 to_sx=lambda s: [3, S(s)], impl=py_loads,
-                 decode=lambda m: None if m == [] else unS(m[0]),
-                 nontrivial=lambda l: "\\" in l, kind=lambda s: "string literal for json.loads", driver="c13")
-
-    # the Coq specification predicate has_close_tag is the transcription used by the oracle
-    probes = [hostile(rng, 4) for _ in range(ctx.budget(1500, 10000))] + \
+    # ---- the Coq specification functions used as oracles ---------------------------------------
+    probes = [hostile(rng, 4) for _ in range(ctx.budget(500, 10000))] + \
              ["</" + v + t for v in case_variants("script") for t in ("", ">", " >")]
-    hm = run_model([[6, S(s)] for s in probes], driver="c13")
-    ctx.obligation(f"Coq has_close_tag == the oracle's '</script' test ({len(probes)} strings)",
-                   all(bool(a) == spec_has_close_tag(s) for a, s in zip(hm, probes)))
+    batch.add("hct", [[6, S(s)] for s in probes])
     ul = [[rng.choice(["a", "b", "", "ab", "a "]) for _ in range(rng.randrange(0, 7))] for _ in range(300)]
-    um = run_model([[9, [S(s) for s in l]] for l in ul], driver="c13")
-    ctx.obligation("Coq stable_unique == the oracle's first-occurrences (300 lists)",
-                   all([unS(x) for x in m] == spec_first_occurrences(l) for m, l in zip(um, ul)))
+    batch.add("uniq", [[9, [S(s) for s in l]] for l in ul])
 
-    # ---- B/C 1: the serialised element --------------------------------------------------------
+    # ---- B/C 1: the serialised element ---------------------------------------------------------
     ser_cases = []
     cdir = os.path.join(VERIF, "corpus", "C13")
     for fn in sorted(os.listdir(cdir)) if os.path.isdir(cdir) else []:
         if fn.endswith(".json"):
             with open(os.path.join(cdir, fn), encoding="utf-8") as f:
                 ser_cases += [c for c in json.load(f)["cases"] if c.get("kind") == "serialise"]
+    n_corpus = len(ser_cases)
     for v in case_variants("script"):
         for t in CLOSE_TAILS:
             f = SIMPLE_FIELDS[(len(ser_cases)) % len(SIMPLE_FIELDS)]
@@ -499,7 +573,7 @@ def run(ctx: Ctx) -> None:
     for f in SIMPLE_FIELDS:
         for s in FRAGS:
             ser_cases.append({"kind": "serialise", "dep": simple_dep(f, s), "indent": rng.choice([None, 0, 2, 4])})
-    for _ in range(ctx.budget(1500, 25000)):
+    for _ in range(ctx.budget(800, 25000)):
         ser_cases.append({"kind": "serialise", "dep": rand_dep(rng), "indent": rng.choice([None, 0, 2, 4])})
     if not ctx.quick:
         for n in range(0, 5):
@@ -507,98 +581,40 @@ def run(ctx: Ctx) -> None:
                 ser_cases.append({"kind": "serialise", "dep": simple_dep("name", "".join(t) + "cript>"), "indent": None})
 
     def dumps_of(case):
+        # what the code hands to json.dumps: the dependency's fields in the live key order (that the
+        # regenerated key list is this order is an obligation below)
         dep = build_dep(case["dep"])
         vals = dep_canon(dep)
         vals["head"] = TagList(dep.head).get_html_string() if dep.head is not None else None
-        return json.dumps({k: vals[k] for k in m_keys}, indent=case["indent"])
+        return json.dumps({k: vals[k] for k in live_keys}, indent=case["indent"])
 
-    def impl_ser(case):
-        return safe_call(lambda: build_dep(case["dep"]).serialize_to_script_json(indent=case["indent"]).get_html_string())
+    batch.add("ser", [[8, S(dumps_of(c))] for c in ser_cases])
 
-    fails: dict[str, list] = {}
-
-    def oracle_ser(case, out):
-        r = oracle_element(case, out)
-        if r is not None:
-            fails.setdefault(r[0], []).append((case, out, r[1]))
-        return None
-
-    differential(ctx, "serialize_to_script_json().get_html_string() vs OPENER ++ neutralise(json.dumps) ++ CLOSER",
-                 ser_cases, to_sx=lambda c: [8, S(dumps_of(c))], impl=impl_ser,
-                 decode=lambda m: ("ok", unS(m)), oracle=oracle_ser,
-                 nontrivial=lambda c: nontriv_s("".join(all_strings(c["dep"]))),
-                 kind=lambda c: "dependency to serialise", driver="c13")
-    ctx.extra["element_differences_due_to_html_parser_leniency_only"] = len(fails.pop("html.parser-only", []))
-    for what, lst in fails.items():
-        lst.sort(key=lambda x: len(canon(x[0])))
-        case, out, info = lst[0]
-        ctx.violation(what, case, {"impl_output": out, "expected": "payload free of '</script' in any letter case; "
-                                   "tokenizer and json.loads give back an equal dependency", "detail": info,
-                                   "failing_cases_in_this_run": len(lst)})
-    ctx.extra["element_oracle_failures"] = {k: len(v) for k, v in fails.items()}
-
-    # ---- B/C 2: extraction from documents -----------------------------------------------------
+    # ---- B/C 2: extraction from documents -------------------------------------------------------
     def rand_text_noopen():
         s = hostile(rng, 3) if rng.random() < 0.8 else ""
         return s.replace(OPEN_TAG, "<script>")
 
     doc_cases = []
-    for _ in range(ctx.budget(1200, 15000)):
+    for _ in range(ctx.budget(600, 15000)):
         pool = [rand_dep(rng) for _ in range(rng.choice([1, 1, 2, 3]))]
         n = rng.choice([0, 1, 2, 2, 3, 4, 6])
         items = [(rng.randrange(len(pool)), rng.choice([None, None, 0, 2, 4])) for _ in range(n)]
         doc_cases.append({"kind": "doc", "pool": pool, "items": items,
                           "texts": [rand_text_noopen() for _ in range(n + 1)]})
-    expected = {}
-
-    def doc_of(case):
-        k = id(case)
-        if k not in expected:
-            expected[k] = doc_expected(case)
-        return expected[k]
-
-    def decode_extract(m):
-        def f():
-            return (unS(m[0]), [dep_canon(dep_from_payload(unS(p))) for p in m[1]])
-        return safe_call(f)
-
-    def oracle_doc(case, out):
-        want = doc_of(case)[1]
-        if out != ("ok", want):
-            return W_EXTRACT
-        return None
-
-    bad_docs = []
-
-    def oracle_doc2(case, out):
-        if oracle_doc(case, out) is not None:
-            bad_docs.append((case, out))
-        return None
-
-    differential(ctx, "_static_extract_serialized_html_deps vs extract", doc_cases,
-                 to_sx=lambda c: [4, S(doc_of(c)[0])], impl=lambda c: run_extract(doc_of(c)[0]),
-                 decode=decode_extract, oracle=oracle_doc2,
-                 nontrivial=lambda c: len(c["items"]) > 0,
-                 kind=lambda c: f"document with {min(len(c['items']), 4)}{'+' if len(c['items']) > 4 else ''} serialised copies",
-                 driver="c13")
-    if bad_docs:
-        bad_docs.sort(key=lambda x: len(canon(x[0])))
-        case, out = bad_docs[0]
-        ctx.violation(W_EXTRACT, case, {"impl_output": out, "expected": doc_of(case)[1], "document": doc_of(case)[0],
-                                        "failing_cases_in_this_run": len(bad_docs)})
+    doc_exp = [doc_expected(c) for c in doc_cases]            # (document, (remaining, deps))
+    batch.add("doc", [[4, S(d)] for d, _ in doc_exp])
     # malformed stream (correspondence only: unterminated openers, stray closers, payloads that are
     # not JSON / not dependency records)
     pieces = [OPEN_TAG, CLOSE_TAG, "<script", "</script", "x", "\n", "\r", '{"a":1}', "[1]", "<", ">",
               OPEN_TAG[:-1], "é", '{"name":"n","version":"1"}', "{", '"s"', "null"]
-    mal = ["".join(rng.choice(pieces) for _ in range(rng.randrange(0, 12))) for _ in range(ctx.budget(1500, 20000))]
-    differential(ctx, "_static_extract_serialized_html_deps vs extract (malformed documents)", mal,
-                 to_sx=lambda d: [4, S(d)], impl=run_extract, decode=decode_extract,
-                 nontrivial=lambda d: OPEN_TAG in d, kind=lambda d: "malformed document", driver="c13")
+    mal = ["".join(rng.choice(pieces) for _ in range(rng.randrange(0, 12))) for _ in range(ctx.budget(500, 20000))]
+    batch.add("mal", [[4, S(d)] for d in mal])
 
-    # ---- B/C 3: render(): first occurrence of the placeholder only -----------------------------
+    # ---- B/C 3: render(): first occurrence of the placeholder only --------------------------------
     PHS = ['<meta data-foo="">', "##", "{{deps}}", "", "</head>", "<!-- deps -->", "a", "\n", "#"]
     ren_cases = []
-    for _ in range(ctx.budget(900, 10000)):
+    for _ in range(ctx.budget(450, 10000)):
         ph = rng.choice(PHS) if rng.random() < 0.85 else (hostile(rng, 1).replace(OPEN_TAG, "") or "#")
         k = rng.choice([0, 1, 1, 3, 3, 2])
         nd = rng.choice([0, 1, 1, 2, 3])
@@ -620,49 +636,97 @@ def run(ctx: Ctx) -> None:
         ren_cases.append({"kind": "render", "ph": ph, "pool": pool, "items": items, "texts": texts, "extra": extra,
                           "lib_prefix": rng.choice(["lib", "lib", None, "x/y", ""]),
                           "include_version": rng.random() < 0.7})
-
-    def render_run(case):
-        doc, sers = make_doc(case)
-        extra = [build_dep(d) for d in case["extra"]]
-
-        def f():
-            r = HTMLTextDocument(doc, deps=list(extra) if extra else None, deps_replace_pattern=case["ph"]) \
-                .render(lib_prefix=case["lib_prefix"], include_version=case["include_version"])
-            return (r["html"], [dep_canon(d) for d in r["dependencies"]])
-        return safe_call(f)
-
-    def render_expect(case):
-        """(remaining text, dependency canon list, markup or None)"""
-        doc, sers = make_doc(case)
-        origin = {}
-        for (i, _ind), s in zip(case["items"], sers):
-            origin.setdefault(s, i)
-        deps = [build_dep(d) for d in case["extra"]] + \
-               [build_dep(case["pool"][origin[s]]) for s in spec_first_occurrences(sers)]
-        names = [d.name for d in deps]
-        markup = None
-        if len(set(names)) == len(names):
-            markup = listing_and_tags_markup(deps, case["lib_prefix"], case["include_version"])
-        return "".join(case["texts"]), deps, markup
-
-    def code_markup(deps, case):
-        tl = TagList()
-        if deps:
-            tl.append(Tag("script", ";".join(d.name + "[" + str(d.version) + "]" for d in deps),
-                          type="application/html-dependencies"))
-        tl.extend([d.as_html_tags(lib_prefix=case["lib_prefix"], include_version=case["include_version"]) for d in deps])
-        return tl.render()["html"]
-
-    ren_out, ren_model_in, bad_ren, strict_eq, lenient_only = [], [], [], 0, 0
+    ren_pre = []
     for case in ren_cases:
-        out = render_run(case)
-        remaining, deps, markup = render_expect(case)
+        out, sers = render_run(case)
+        remaining, deps, markup = render_expect(case, sers)
         # the dependencies as HTMLTextDocument holds them (heads are markup strings by then)
         held = [build_dep(d) for d in case["extra"]] + [dep_from_payload(json.dumps(dict(dep_canon(d))))
                                                         for d in deps[len(case["extra"]):]]
-        mk = code_markup(held, case)
-        ren_out.append(out)
-        ren_model_in.append([5, S(case["ph"]), S(mk), S(remaining)])
+        ren_pre.append((out, remaining, deps, markup))
+        ren_pre[-1] += (code_markup(held, case),)
+    batch.add("ren", [[5, S(c["ph"]), S(p[4]), S(p[1])] for c, p in zip(ren_cases, ren_pre)])
+
+    batch.run()
+
+    # =========================================================================================
+    # compare
+    # =========================================================================================
+    # ---- B0: regenerated literals vs the live implementation -------------------------------------
+    tab = batch.get("tables")[0]
+    m_from, m_to, m_open, m_close = (unS(tab[i]) for i in range(4))
+    m_keys = [unS(k) for k in tab[4]]
+    ctx.extra["literals"] = {"neutralise_from": m_from, "neutralise_to": m_to, "neutralise_ok": bool(tab[5]),
+                             "neutralise_shape": bool(tab[6])}
+    ctx.obligation("regenerated opener/closer are the opening/closing tag the serialiser really emits, and the "
+                   "regenerated key list is the live key order",
+                   m_open == OPEN_TAG and m_close == CLOSE_TAG and probe.startswith(m_open)
+                   and probe.endswith(m_close) and live_keys == m_keys)
+    ctx.obligation("html_dependency_render_mode defaults to 'invisible'",
+                   htmltools.html_dependency_render_mode == "invisible")
+    if set(m_keys) != set(FIELDS):
+        # the statement lists the fields that must come back; a serialiser that drops one is
+        # caught by the element oracle below, nothing to do here
+        ctx.extra["serialised_keys_differ_from_statement"] = m_keys
+
+    diff(ctx, "json.dumps(str) vs json_str_enc", strs, batch.get("enc"),
+         impl=lambda s: json.dumps(s), decode=unS, nontrivial=nontriv_s, kind=lambda s: "string for json.dumps")
+    diff(ctx, "json.loads(string literal) vs json_str_dec", lits, batch.get("dec"),
+         impl=py_loads, decode=lambda m: None if m == [] else unS(m[0]),
+         nontrivial=lambda l: "\\" in l, kind=lambda s: "string literal for json.loads")
+    ctx.obligation(f"Coq has_close_tag == the oracle's '</script' test ({len(probes)} strings)",
+                   all(bool(a) == spec_has_close_tag(s) for a, s in zip(batch.get("hct"), probes)))
+    ctx.obligation("Coq stable_unique == the oracle's first-occurrences (300 lists)",
+                   all([unS(x) for x in m] == spec_first_occurrences(l) for m, l in zip(batch.get("uniq"), ul)))
+
+    # ---- B/C 1 -----------------------------------------------------------------------------------
+    fails: dict[str, list] = {}
+
+    def oracle_ser(case, out):
+        r = oracle_element(case, out)
+        if r is not None:
+            fails.setdefault(r[0], []).append((case, out, r[1]))
+
+    diff(ctx, "serialize_to_script_json().get_html_string() vs OPENER ++ neutralise(json.dumps) ++ CLOSER",
+         ser_cases, batch.get("ser"),
+         impl=lambda c: safe_call(lambda: build_dep(c["dep"]).serialize_to_script_json(indent=c["indent"]).get_html_string()),
+         decode=lambda m: ("ok", unS(m)), oracle=oracle_ser,
+         nontrivial=lambda c: nontriv_s("".join(all_strings(c["dep"]))),
+         kind=lambda c: "dependency to serialise")
+    ctx.extra["corpus_cases"] = n_corpus
+    ctx.extra["element_differences_due_to_html_parser_leniency_only"] = len(fails.pop("html.parser-only", []))
+    for what, lst in fails.items():
+        lst.sort(key=lambda x: len(canon(x[0])))
+        case, out, info = lst[0]
+        ctx.violation(what, case, {"impl_output": out, "expected": "payload free of '</script' in any letter case; "
+                                   "tokenizer and json.loads give back an equal dependency", "detail": info,
+                                   "failing_cases_in_this_run": len(lst)})
+    ctx.extra["element_oracle_failures"] = {k: len(v) for k, v in fails.items()}
+
+    # ---- B/C 2 -----------------------------------------------------------------------------------
+    bad_docs = []
+    exp_of = {id(c): e for c, e in zip(doc_cases, doc_exp)}
+
+    def oracle_doc(case, out):
+        if out != ("ok", exp_of[id(case)][1]):
+            bad_docs.append((case, out))
+
+    diff(ctx, "_static_extract_serialized_html_deps vs extract", doc_cases, batch.get("doc"),
+         impl=lambda c: run_extract(exp_of[id(c)][0]), decode=decode_extract, oracle=oracle_doc,
+         nontrivial=lambda c: len(c["items"]) > 0,
+         kind=lambda c: f"document with {min(len(c['items']), 4)}{'+' if len(c['items']) > 4 else ''} serialised copies")
+    if bad_docs:
+        bad_docs.sort(key=lambda x: len(canon(x[0])))
+        case, out = bad_docs[0]
+        ctx.violation(W_EXTRACT, case, {"impl_output": out, "expected": exp_of[id(case)][1],
+                                        "document": exp_of[id(case)][0], "failing_cases_in_this_run": len(bad_docs)})
+    diff(ctx, "_static_extract_serialized_html_deps vs extract (malformed documents)", mal, batch.get("mal"),
+         impl=run_extract, decode=decode_extract,
+         nontrivial=lambda d: OPEN_TAG in d, kind=lambda d: "malformed document")
+
+    # ---- B/C 3 -----------------------------------------------------------------------------------
+    bad_ren, strict_eq, lenient_only = [], 0, 0
+    for case, (out, remaining, deps, markup, _mk) in zip(ren_cases, ren_pre):
         ctx.count(case, case["ph"] in remaining, f"render, placeholder x{min(remaining.count(case['ph']) if case['ph'] else 1, 3)}")
         want_deps = [dep_canon(d) for d in deps]
         ok = out[0] == "ok" and out[1][1] == want_deps
@@ -684,8 +748,8 @@ def run(ctx: Ctx) -> None:
                         ok = False
         if not ok:
             bad_ren.append((case, out, {"remaining": remaining, "markup": markup, "deps": want_deps}))
-    mo = run_model(ren_model_in, driver="c13")
-    dis = [(c, o, unS(m)) for c, o, m in zip(ren_cases, ren_out, mo) if not (o[0] == "ok" and o[1][0] == unS(m))]
+    dis = [(c, p[0], unS(m)) for c, p, m in zip(ren_cases, ren_pre, batch.get("ren"))
+           if not (p[0][0] == "ok" and p[0][1][0] == unS(m))]
     ctx.corr_cases += len(ren_cases)
     ctx.obligation(f"correspondence HTMLTextDocument.render()['html'] vs replace_first ({len(ren_cases)} cases)", not dis)
     if dis:
@@ -704,7 +768,7 @@ def run(ctx: Ctx) -> None:
     # ---- C 4: json-mode str() + HTMLTextDocument  ==  HTMLDocument ------------------------------
     bad_pipe = []
     n_strict = n_len = 0
-    for _ in range(ctx.budget(500, 6000)):
+    for _ in range(ctx.budget(300, 6000)):
         nd = rng.choice([0, 1, 2, 2, 3])
         names = [rng.choice(TAME + ["n1", "n2"]) if rng.random() < 0.5 else hostile(rng, 2) for _ in range(nd)]
         pool = [rand_dep(rng, renderable=True, name=names[i]) for i in range(nd)]
@@ -803,7 +867,7 @@ def pipeline_check(case):
 
 @known_matcher("F3")
 def _f3(what, case, detail) -> bool:
-    """finding F3: only the exact lower-case '</script>' is neutralised"""
+    """finding F3 (fixed by dfbc841): a close tag in another letter case / with a tail got through"""
     return what in (W_CLOSE, W_PARSER) and isinstance(case, dict) and case.get("kind") == "serialise"
 
 
